@@ -358,6 +358,8 @@ func genTransportSkel(repo string) (string, error) {
 		{"endpointServer", "cleanup"}, {"endpointServer", "serve"},
 		{"connections", "add"}, {"connections", "get"}, {"connections", "remove"}, {"connections", "shutdown"},
 		{"", "newConnection"}, {"connection", "cleanup"},
+		// the side dial's hand-over on the server
+		{"connMailBox", "cleanUp"}, {"connMailBox", "discard"}, {"sideConn", "wait"}, {"Server", "serveBackSide"},
 	}
 	emitSkel(&b, "gen_transport", []*pkg{p, q}, [][]skelFn{fns, {{"", "JoinConn"}}})
 
